@@ -76,8 +76,8 @@ def fix_f32(op):
 
 def gen_hist(kinds=("dt",), quick=400, thorough=6000, **kw):
     def g(r, tier):
-        mp = 12 if tier != "thorough" else 40
-        mo = 14 if tier != "thorough" else 40
+        mp = 14 if tier != "thorough" else 40
+        mo = 18 if tier != "thorough" else 40
         return [gen.history(r, "h%d" % i, kinds=kinds, max_ops=mo, max_pts=mp, **kw) for i in range(n_cases(tier, quick, thorough))]
     return g
 
@@ -152,3 +152,216 @@ PROPS = {
                       "C08_mitigate_never_too_small, C08_min_limit, C08_max_limit, C08_oracle_is_code (over the GENERATED validate_coordinate)",
              assumptions=["f32 -> f64 conversion is exact (IEEE widening)", "insert's atomicity is observed on the implementation, not proved"]),
 }
+
+# ------------------------------------------------------------------ query generators
+def query_points(r, pool, n):
+    """query positions: vertices, edge midpoints, near-hull, far outside, random grid points"""
+    qs = []
+    for _ in range(n):
+        k = r.below(6)
+        if k == 0 and pool:
+            qs.append(r.choice(pool))
+        elif k == 1 and len(pool) >= 2:
+            a, b = r.choice(pool), r.choice(pool)
+            qs.append(((a[0] + b[0]) / 2.0, (a[1] + b[1]) / 2.0))
+        elif k == 2 and len(pool) >= 3:
+            a, b, c = r.choice(pool), r.choice(pool), r.choice(pool)
+            qs.append(((a[0] + b[0] + 2 * c[0]) / 4.0, (a[1] + b[1] + 2 * c[1]) / 4.0))
+        elif k == 3:
+            qs.append((float(r.range(-40, 40)), float(r.range(-40, 40))))
+        elif k == 4 and len(pool) >= 2:
+            a, b = r.choice(pool), r.choice(pool)
+            t = r.choice([-1.0, 2.0, 3.0, -0.5, 1.5])
+            qs.append((a[0] + t * (b[0] - a[0]), a[1] + t * (b[1] - a[1])))
+        else:
+            qs.append((float(r.range(-6, 6)), float(r.range(-6, 6))))
+    return qs
+
+def exact_styles():
+    # styles on which f64 arithmetic on squared distances is exact
+    return [('grid', 50), ('circle', 20), ('line', 10), ('cluster', 10), ('ray', 10)]
+
+def gen_queries(kinds, qops, quick, thorough, styles=None, with_constraints=False, nq=10, f32_share=0.15):
+    def g(r, tier):
+        out = []
+        for i in range(n_cases(tier, quick, thorough)):
+            c = gen.history(r, "q%d" % i, kinds=kinds, max_ops=(12 if tier != "thorough" else 30),
+                            max_pts=(12 if tier != "thorough" else 30), styles=styles or exact_styles(), f32_share=f32_share,
+                            w_addc=(12 if with_constraints else 0), w_rmc=(3 if with_constraints else 0))
+            pool = []
+            for o in c.ops:
+                t = o.split()
+                if t[0] in ("ins", "insh"):
+                    pool.append((gen.from_bits(int(t[1])), gen.from_bits(int(t[2]))))
+            for (x, y) in query_points(r, pool, nq):
+                if c.scalar == "f32" and not (gen.is_f32(x) and gen.is_f32(y)):
+                    continue
+                op = r.choice(qops)
+                if op == "loc":
+                    c.add("loc", bits(x), bits(y))
+                elif op == "loch":
+                    c.add("loch", bits(x), bits(y), ("V%d" % r.range(0, 60)) if r.chance(0.2) else ("v%d" % r.below(64)))
+                elif op == "locv":
+                    c.add("locv", bits(x), bits(y))
+                elif op == "nn":
+                    c.add("nn", bits(x), bits(y))
+                elif op in ("vrect", "erect"):
+                    (x2, y2) = r.choice(query_points(r, pool, 2))
+                    if c.scalar == "f32" and not (gen.is_f32(x2) and gen.is_f32(y2)):
+                        continue
+                    lo = (min(x, x2), min(y, y2)); hi = (max(x, x2), max(y, y2))
+                    k = r.below(10)
+                    if k == 0:
+                        lo, hi = hi, lo                      # inverted
+                    elif k == 1:
+                        hi = lo                              # a point
+                    elif k == 2:
+                        hi = (hi[0], lo[1])                  # a horizontal line
+                    c.add(op, bits(lo[0]), bits(lo[1]), bits(hi[0]), bits(hi[1]))
+                elif op in ("vcirc", "ecirc"):
+                    rr = r.choice([0.0, 1.0, 2.0, 4.0, 5.0, 25.0, 0.25, 100.0, 1e6, float(r.range(0, 50))])
+                    c.add(op, bits(x), bits(y), bits(rr))
+                elif op in ("canc", "tryc", "confv", "exc"):
+                    c.add(op, "v%d" % r.below(64), "v%d" % r.below(64))
+                elif op in ("isc", "confp"):
+                    (x2, y2) = r.choice(query_points(r, pool, 2))
+                    if c.scalar == "f32" and not (gen.is_f32(x2) and gen.is_f32(y2)):
+                        continue
+                    c.add(op, bits(x), bits(y), bits(x2), bits(y2))
+                elif op == "hull":
+                    c.add("hull")
+                if r.chance(0.15):
+                    # interleave a mutation so that hint-generator state and queries mix
+                    (mx, my) = r.choice(pool) if pool and r.chance(0.5) else (float(r.range(-6, 6)), float(r.range(-6, 6)))
+                    if r.chance(0.6):
+                        c.ins(mx, my, 500 + len(c.ops))
+                        pool.append((mx, my))
+                    else:
+                        c.add("rm", "v%d" % r.below(64))
+            out.append(c)
+        return out
+    return g
+
+PROPS.update({
+ "C01": dict(gen=gen_hist(kinds=("dt",), quick=1200, thorough=12000), tags=["delaunay", "parse", "decode"], level="proof",
+             rule=STATE_RULE, theorems="Props/C01.v", assumptions=[]),
+ "C02": dict(gen=gen_hist(kinds=("dt", "cdt"), quick=1200, thorough=12000, w_addc=6, w_rmc=2), tags=["wf", "geo", "parse", "decode"],
+             level="proof", rule=STATE_RULE, theorems="Props/C02.v", assumptions=[]),
+ "C05": dict(gen=gen_hist(kinds=("dt", "cdt"), quick=600, thorough=20000, w_dupe=25, w_rm=20, w_lrm=10, w_clear=3),
+             tags=["vmap", "parse"], level="proof", rule=STATE_RULE, theorems="Props/C05.v", assumptions=[]),
+ "C14": dict(gen=gen_queries(("dt", "cdt"), ["hull"], 400, 5000, styles=gen.STYLES, nq=3), tags=["hull_iter", "geo", "wf", "parse", "decode"],
+             level="proof", rule=STATE_RULE + " plus explicit convex_hull() / rev() / convex_hull_size() queries", theorems="Props/C14.v", assumptions=[]),
+ "C09": dict(gen=gen_queries(("dt", "cdt"), ["loc", "loch", "loch", "locv"], 300, 5000, styles=gen.STYLES, with_constraints=True, nq=24),
+             tags=["locate", "parse"], level="proof", rule=STATE_RULE + " followed by locate / locate_with_hint (every kind of hint incl. stale, out of range) / locate_vertex queries on vertices, edge interiors, hull boundary, far outside",
+             theorems="Props/C09.v", assumptions=[]),
+ "C15": dict(gen=gen_queries(("dt",), ["nn"], 300, 5000, nq=24), tags=["nn", "parse"], level="proof",
+             rule=STATE_RULE + " restricted to inputs with exactly representable squared distances; nearest_neighbor queries interleaved with mutations",
+             theorems="Props/C15.v", assumptions=[]),
+ "C16": dict(gen=gen_queries(("dt", "cdt"), ["vrect", "erect", "vcirc", "ecirc"], 300, 5000, nq=16), tags=["shape", "parse"], level="proof",
+             rule=STATE_RULE + " followed by rectangle / circle queries (inside, outside, containing the hull, degenerate to a point or line, inverted, touching)",
+             theorems="Props/C16.v", assumptions=[], events=True),
+ "C12": dict(gen=gen_queries(("cdt",), ["canc", "tryc", "confv", "isc", "confp", "tryc"], 300, 5000, with_constraints=True, nq=16, f32_share=0.1),
+             tags=["admission", "try_atomic", "chain", "parse"], level="proof",
+             rule=STATE_RULE + " on CDTs with constraints, followed by can_add_constraint / try_add_constraint / intersects_constraint / get_conflicting_edges_* for vertex pairs and point pairs",
+             theorems="Props/C12.v", assumptions=[]),
+})
+
+CDT_RULE = STATE_RULE + " On CDTs additionally add_constraint / try_add_constraint / add_constraint_edge / remove_constraint_edge / add_constraint_and_split between random vertex pairs (many through vertices, overlapping edges, crossing constraints)."
+PROPS.update({
+ "C03": dict(gen=gen_hist(kinds=("cdt",), quick=1500, thorough=15000, w_addc=14, w_rmc=5, w_tryc=6, w_adde=5, w_split=0),
+             tags=["cdtlocal", "dt_when_free", "parse", "decode"], level="proof", rule=CDT_RULE, theorems="Props/C03.v", assumptions=[]),
+ "C04": dict(gen=gen_hist(kinds=("cdt",), quick=1500, thorough=15000, w_addc=16, w_rmc=6, w_tryc=6, w_adde=5, w_lrm=8, w_trm=6, w_clear=2),
+             tags=["ncons", "noncross", "segspec", "parse", "decode"], level="proof", rule=CDT_RULE, theorems="Props/C04.v", assumptions=[]),
+})
+
+def gen_C05(r, tier):
+    base = gen_hist(kinds=("dt", "cdt"), quick=500, thorough=20000, w_dupe=25, w_rm=20, w_lrm=10, w_clear=3)(r, tier)
+    # long refill scenarios: build N vertices, clear / remove many, refill (hint-generator layers must follow)
+    extra = []
+    for i in range(n_cases(tier, 120, 1500)):
+        kind, scalar, hint = gen.pick_cfg(r, ("dt", "cdt"), 0.1)
+        c = Case("r%d" % i, kind, scalar, hint)
+        c.meta = {"style": "refill", "kind": kind, "scalar": scalar, "hint": hint}
+        n = r.choice([3, 5, 9, 17, 18, 20, 33, 40])
+        g = r.choice([3, 4, 6])
+        pts = [(float(r.range(-g, g)), float(r.range(-g, g))) for _ in range(n)]
+        d = 1
+        for (x, y) in pts:
+            c.ins(x, y, d); d += 1
+        mode = r.below(3)
+        if mode == 0:
+            c.add("clear")
+        elif mode == 1:
+            for _ in range(r.range(1, n)):
+                c.add(r.choice(["rm", "rm", "trm"]), "v%d" % r.below(64))
+        else:
+            c.add("clone")
+        for _ in range(r.range(2, 10)):
+            if r.chance(0.6):
+                x, y = float(r.range(-g - 2, g + 2)), float(r.range(-g - 2, g + 2))
+            else:
+                x, y = r.choice(pts)
+            c.ins(x, y, d); d += 1
+            if r.chance(0.2):
+                c.add("rm", "v%d" % r.below(64))
+        extra.append(c)
+    return base + extra
+
+PROPS["C05"]["gen"] = gen_C05
+for _p in ("C05", "C09", "C12", "C15", "C16"):
+    PROPS[_p]["events"] = True
+
+BULK_STYLES = [('grid', 20), ('circle', 10), ('line', 6), ('ulp', 8), ('mag', 6), ('cluster', 10), ('ray', 10), ('bigcol', 10), ('unimod', 20)]
+def gen_bulk(quick, thorough, kinds=("dt", "cdt"), follow=("hull",)):
+    """cases that start with one of the four bulk loaders on adversarial point sets"""
+    def g(r, tier):
+        out = []
+        for i in range(n_cases(tier, quick, thorough)):
+            kind, scalar, hint = gen.pick_cfg(r, kinds, 0.15)
+            style = r.weighted(BULK_STYLES)
+            n = r.range(3, 30 if tier != "thorough" else 80)
+            pts = gen.point_cloud(r, n, style, scalar == "f32")
+            if r.chance(0.3):
+                pts += [r.choice(pts) for _ in range(r.range(1, 4))]      # duplicates
+                r.shuffle(pts)
+            c = Case("b%d" % i, kind, scalar, hint)
+            c.meta = {"style": style, "kind": kind, "scalar": scalar, "hint": hint}
+            toks = []
+            for j, (x, y) in enumerate(pts):
+                toks += [bits(x), bits(y), j + 1]
+            stable = r.chance(0.5)
+            if kind == "cdt" and r.chance(0.5):
+                m = r.range(0, 4)
+                es = []
+                for _ in range(m):
+                    es += [r.below(len(pts)), r.below(len(pts))]
+                c.add("bulkcs" if stable else "bulkc", len(pts), *toks, m, *es)
+            else:
+                c.add("bulks" if stable else "bulk", len(pts), *toks)
+            for f in follow:
+                c.add(f)
+            # a few incremental operations afterwards
+            for _ in range(r.range(0, 4)):
+                if r.chance(0.6):
+                    x, y = r.choice(pts) if r.chance(0.3) else gen.point_cloud(r, 1, style, scalar == "f32")[0]
+                    c.ins(x, y, 900 + len(c.ops))
+                else:
+                    c.add("rm", "v%d" % r.below(64))
+            out.append(c)
+        return out
+    return g
+
+def gen_union(*gs):
+    def g(r, tier):
+        out = []
+        for k, gg in enumerate(gs):
+            cs = gg(r, tier)
+            for c in cs:
+                c.cid = "%s_%d" % (c.cid, k)
+            out += cs
+        return out
+    return g
+
+PROPS["C14"]["gen"] = gen_union(PROPS["C14"]["gen"], gen_bulk(1500, 12000))
+PROPS["C02"]["gen"] = gen_union(PROPS["C02"]["gen"], gen_bulk(800, 8000))
+PROPS["C01"]["gen"] = gen_union(PROPS["C01"]["gen"], gen_bulk(1000, 10000, kinds=("dt",)))
